@@ -1,9 +1,17 @@
 // driver: static_set / flat_set / flat_multiset at capacity VF_N, keys int (C09, C02)
+// Besides etl::less<int> / etl::greater<int> / etl::less<> every set is also instantiated with an AUDITING comparator (aud_*): it
+// hands the ADDRESSES of its two arguments to the ghost hook vf::g_cmp (declared here, defined in harness.c), which asserts that an
+// address inside the set under test is a live element [begin, begin+size) - never the slot behind end() or a stale slot - and
+// then answers like operator<.  flat_set is additionally instantiated over vf::fixed_vec, a trivially copyable container whose
+// move leaves the source untouched (the adaptor must not rely on the container's move to empty it).
 #include <etl/set.hpp>
 #include <etl/flat_set.hpp>
 #include <etl/vector.hpp>
 #include <etl/inplace_vector.hpp>
 #include <etl/functional.hpp>
+#include <etl/iterator.hpp>
+#include <etl/type_traits.hpp>
+#include <etl/utility.hpp>
 #include <etl/new.hpp>
 #ifndef VF_N
 #define VF_N 4
@@ -15,6 +23,82 @@ using SV = etl::static_vector<int, VF_N>;
 using IV = etl::inplace_vector<int, VF_N>;
 struct is_odd { auto operator()(int const& x) const -> bool { return (x & 1) != 0; } };
 
+// ---------------------------------------------------------------- auditing comparators (ghost hooks: EXTERNAL, defined in harness.c)
+bool g_cmp(int const* a, int const* b);     // audits both addresses, then *a < *b
+bool g_cmp_li(long const* a, int const* b); // heterogeneous: key < element
+bool g_cmp_il(int const* a, long const* b); // heterogeneous: element < key
+struct aud_less { auto operator()(int const& a, int const& b) const -> bool { return g_cmp(&a, &b); } };
+struct aud_greater { auto operator()(int const& a, int const& b) const -> bool { return g_cmp(&b, &a); } };
+struct aud_less_t {
+    using is_transparent = void;
+    auto operator()(int const& a, int const& b) const -> bool { return g_cmp(&a, &b); }
+    auto operator()(long const& a, int const& b) const -> bool { return g_cmp_li(&a, &b); }
+    auto operator()(int const& a, long const& b) const -> bool { return g_cmp_il(&a, &b); }
+};
+
+// ---------------------------------------------------------------- second backing container for flat_set
+// Fixed capacity, TRIVIALLY COPYABLE (like std::inplace_vector<int, N>): the implicit move constructor / assignment is a plain copy
+// that leaves the source as it was.  size_type is size_t (static_vector / inplace_vector keep the size in one byte).  It offers
+// exactly what [flat.set] asks of the adapted sequence container; emplace requires room (precondition, as for static_vector).
+template <typename T, etl::size_t Cap>
+struct fixed_vec {
+    using value_type             = T;
+    using size_type              = etl::size_t;
+    using difference_type        = etl::ptrdiff_t;
+    using reference              = T&;
+    using const_reference        = T const&;
+    using pointer                = T*;
+    using const_pointer          = T const*;
+    using iterator               = T*;
+    using const_iterator         = T const*;
+    using reverse_iterator       = etl::reverse_iterator<iterator>;
+    using const_reverse_iterator = etl::reverse_iterator<const_iterator>;
+
+    fixed_vec() = default;
+    template <typename It>
+    fixed_vec(It first, It last) { for (; first != last; ++first) { _data[_size] = *first; ++_size; } }
+
+    auto begin() noexcept -> iterator { return _data; }
+    auto begin() const noexcept -> const_iterator { return _data; }
+    auto end() noexcept -> iterator { return _data + _size; }
+    auto end() const noexcept -> const_iterator { return _data + _size; }
+    auto rbegin() noexcept -> reverse_iterator { return reverse_iterator(end()); }
+    auto rbegin() const noexcept -> const_reverse_iterator { return const_reverse_iterator(end()); }
+    auto crbegin() const noexcept -> const_reverse_iterator { return const_reverse_iterator(end()); }
+    auto rend() noexcept -> reverse_iterator { return reverse_iterator(begin()); }
+    auto rend() const noexcept -> const_reverse_iterator { return const_reverse_iterator(begin()); }
+    auto crend() const noexcept -> const_reverse_iterator { return const_reverse_iterator(begin()); }
+    auto size() const noexcept -> size_type { return _size; }
+    auto max_size() const noexcept -> size_type { return Cap; }
+    auto empty() const noexcept -> bool { return _size == 0; }
+    auto clear() noexcept -> void { _size = 0; }
+
+    template <typename... Args>
+    auto emplace(const_iterator pos, Args&&... args) -> iterator
+    {
+        auto const idx = static_cast<size_type>(pos - _data);
+        auto value     = T(etl::forward<Args>(args)...);
+        for (auto i = _size; i > idx; --i) { _data[i] = _data[i - 1]; }
+        _data[idx] = value;
+        ++_size;
+        return _data + idx;
+    }
+    auto erase(const_iterator first, const_iterator last) -> iterator
+    {
+        auto const f = static_cast<size_type>(first - _data);
+        auto const n = static_cast<size_type>(last - first);
+        for (auto i = f; i + n < _size; ++i) { _data[i] = _data[i + n]; }
+        _size -= n;
+        return _data + f;
+    }
+    auto erase(const_iterator pos) -> iterator { return erase(pos, pos + 1); }
+
+    T _data[Cap];
+    size_type _size{0};
+};
+using FV = fixed_vec<int, VF_N>;
+static_assert(etl::is_trivially_copyable_v<FV>);
+
 // ---------------------------------------------------------------- static_set
 #define SS_API(P, S)                                                                                                   \
     VF_E void P##_default(S* out) { new (out) S; }                                                                     \
@@ -24,6 +108,7 @@ struct is_odd { auto operator()(int const& x) const -> bool { return (x & 1) != 
     VF_E bool P##_insert(S& s, int const& k, int** it) { auto r = s.insert(k); *it = r.first; return r.second; }       \
     VF_E bool P##_insert_rv(S& s, int k, int** it) { auto r = s.insert(etl::move(k)); *it = r.first; return r.second; } \
     VF_E bool P##_emplace(S& s, int k, int** it) { auto r = s.emplace(k); *it = r.first; return r.second; }            \
+    VF_E bool P##_emplace_cref(S& s, int const& k, int** it) { auto r = s.emplace(k); *it = r.first; return r.second; } \
     VF_E void P##_insert_range(S& s, int const* f, int const* l) { s.insert(f, l); }                                   \
     VF_E int* P##_erase_it(S& s, int* pos) { return s.erase(pos); }                                                    \
     VF_E int* P##_erase_range(S& s, int* f, int* l) { return s.erase(f, l); }                                          \
@@ -69,6 +154,12 @@ using SST = etl::static_set<int, VF_N, etl::less<>>;
 SS_API(ss, SSL)
 SS_API(ssg, SSG)
 SS_API(sst, SST)
+using SSA  = etl::static_set<int, VF_N, aud_less>;
+using SSAG = etl::static_set<int, VF_N, aud_greater>;
+using SSAT = etl::static_set<int, VF_N, aud_less_t>;
+SS_API(ssa, SSA)
+SS_API(ssag, SSAG)
+SS_API(ssat, SSAT)
 // heterogeneous lookup (transparent comparator), key type long
 VF_E int* sst_find_h(SST& s, long const& k) { return s.find(k); }
 VF_E int const* sst_cfind_h(SST const& s, long const& k) { return s.find(k); }
@@ -78,6 +169,14 @@ VF_E int* sst_lower_bound_h(SST& s, long const& k) { return s.lower_bound(k); }
 VF_E int const* sst_clower_bound_h(SST const& s, long const& k) { return s.lower_bound(k); }
 VF_E int* sst_upper_bound_h(SST& s, long const& k) { return s.upper_bound(k); }
 VF_E int const* sst_cupper_bound_h(SST const& s, long const& k) { return s.upper_bound(k); }
+VF_E int* ssat_find_h(SSAT& s, long const& k) { return s.find(k); }
+VF_E int const* ssat_cfind_h(SSAT const& s, long const& k) { return s.find(k); }
+VF_E bool ssat_contains_h(SSAT const& s, long const& k) { return s.contains(k); }
+VF_E size_type ssat_count_h(SSAT const& s, long const& k) { return s.count(k); }
+VF_E int* ssat_lower_bound_h(SSAT& s, long const& k) { return s.lower_bound(k); }
+VF_E int const* ssat_clower_bound_h(SSAT const& s, long const& k) { return s.lower_bound(k); }
+VF_E int* ssat_upper_bound_h(SSAT& s, long const& k) { return s.upper_bound(k); }
+VF_E int const* ssat_cupper_bound_h(SSAT const& s, long const& k) { return s.upper_bound(k); }
 
 // ---------------------------------------------------------------- flat_set: lookups and observers (every container)
 #define FS_LOOKUP_API(P, F, C)                                                                                         \
@@ -124,6 +223,8 @@ VF_E int const* sst_cupper_bound_h(SST const& s, long const& k) { return s.upper
     VF_E bool P##_insert(F& s, int const& k, int** it) { auto r = s.insert(k); *it = r.first; return r.second; }       \
     VF_E bool P##_insert_rv(F& s, int k, int** it) { auto r = s.insert(etl::move(k)); *it = r.first; return r.second; } \
     VF_E bool P##_emplace(F& s, int k, int** it) { auto r = s.emplace(k); *it = r.first; return r.second; }            \
+    VF_E bool P##_emplace_cref(F& s, int const& k, int** it) { auto r = s.emplace(k); *it = r.first; return r.second; } \
+    VF_E int* P##_emplace_hint_cref(F& s, int const* pos, int const& k) { return s.emplace_hint(pos, k); }             \
     VF_E int* P##_insert_hint(F& s, int const* pos, int const& k) { return s.insert(pos, k); }                         \
     VF_E int* P##_insert_hint_rv(F& s, int const* pos, int k) { return s.insert(pos, etl::move(k)); }                  \
     VF_E int* P##_emplace_hint(F& s, int const* pos, int k) { return s.emplace_hint(pos, k); }                         \
@@ -150,6 +251,20 @@ FS_MOD_API(fsg, FSG, SV)
 FS_LOOKUP_API(fst, FST, SV)
 FS_MOD_API(fst, FST, SV)
 FS_LOOKUP_API(fsi, FSI, IV)
+using FSA  = etl::flat_set<int, SV, aud_less>;
+using FSAG = etl::flat_set<int, SV, aud_greater>;
+using FSAT = etl::flat_set<int, SV, aud_less_t>;
+using FIA  = etl::flat_set<int, IV, aud_less>;
+using FVA  = etl::flat_set<int, FV, aud_less>; // the second container: complete API
+FS_LOOKUP_API(fsa, FSA, SV)
+FS_MOD_API(fsa, FSA, SV)
+FS_LOOKUP_API(fsag, FSAG, SV)
+FS_MOD_API(fsag, FSAG, SV)
+FS_LOOKUP_API(fsat, FSAT, SV)
+FS_MOD_API(fsat, FSAT, SV)
+FS_LOOKUP_API(fia, FIA, IV)
+FS_LOOKUP_API(fv, FVA, FV)
+FS_MOD_API(fv, FVA, FV)
 // heterogeneous lookup (transparent comparator), key type long
 VF_E int* fst_find_h(FST& s, long const& k) { return s.find(k); }
 VF_E int const* fst_cfind_h(FST const& s, long const& k) { return s.find(k); }
@@ -161,6 +276,16 @@ VF_E int* fst_upper_bound_h(FST& s, long const& k) { return s.upper_bound(k); }
 VF_E int const* fst_cupper_bound_h(FST const& s, long const& k) { return s.upper_bound(k); }
 VF_E void fst_equal_range_h(FST& s, long const& k, int** lo, int** hi) { auto r = s.equal_range(k); *lo = r.first; *hi = r.second; }
 VF_E void fst_cequal_range_h(FST const& s, long const& k, int const** lo, int const** hi) { auto r = s.equal_range(k); *lo = r.first; *hi = r.second; }
+VF_E int* fsat_find_h(FSAT& s, long const& k) { return s.find(k); }
+VF_E int const* fsat_cfind_h(FSAT const& s, long const& k) { return s.find(k); }
+VF_E bool fsat_contains_h(FSAT const& s, long const& k) { return s.contains(k); }
+VF_E size_type fsat_count_h(FSAT const& s, long const& k) { return s.count(k); }
+VF_E int* fsat_lower_bound_h(FSAT& s, long const& k) { return s.lower_bound(k); }
+VF_E int const* fsat_clower_bound_h(FSAT const& s, long const& k) { return s.lower_bound(k); }
+VF_E int* fsat_upper_bound_h(FSAT& s, long const& k) { return s.upper_bound(k); }
+VF_E int const* fsat_cupper_bound_h(FSAT const& s, long const& k) { return s.upper_bound(k); }
+VF_E void fsat_equal_range_h(FSAT& s, long const& k, int** lo, int** hi) { auto r = s.equal_range(k); *lo = r.first; *hi = r.second; }
+VF_E void fsat_cequal_range_h(FSAT const& s, long const& k, int const** lo, int const** hi) { auto r = s.equal_range(k); *lo = r.first; *hi = r.second; }
 
 // ---------------------------------------------------------------- flat_multiset: construction sorts
 using FML = etl::flat_multiset<int, SV>;
@@ -180,4 +305,8 @@ using FMI = etl::flat_multiset<int, IV>;
 FM_API(fm, FML, SV)
 FM_API(fmg, FMG, SV)
 FM_API(fmi, FMI, IV)
+using FMA = etl::flat_multiset<int, SV, aud_less>;
+using FMV = etl::flat_multiset<int, FV, aud_greater>;
+FM_API(fma, FMA, SV)
+FM_API(fmv, FMV, FV)
 }
